@@ -195,36 +195,29 @@ def effects_of(op):
     return out
 
 
-def run(ctx, replay_ops=None):
-    ctx.overlay()
-    ctx.assumptions += ASSUMPTIONS
-    proved = ctx.prove(["AlgoVerif.Props.C23"])
-    ok, out = ctx.lean_build(["c23"])
-    if not ok:
-        raise RuntimeError("driver c23 does not build: " + out[-800:])
-    env = {}
-    if not proved:
-        env["VERIF_BUDGET_SCALE"] = "500" if ctx.tier == "quick" else "200"
-    if replay_ops is not None:
-        rp = os.path.join(ctx.work, NAME + ".replay")
-        open(rp, "w").write("\n".join(replay_ops) + "\n")
-        env["VERIF_REPLAY"] = rp
-    ctx.cov["rule"] = ("a case = fresh applications on a real ledger, 1-3 blocks of 5-15 transaction groups (creations with schemas 0..3, calls with "
-                       "NoOp/OptIn/CloseOut/Clear/Delete, schema-changing updates) whose effect scripts (0-7 effects) are drawn towards VALID effects from a "
-                       "picture of the case (existing boxes, opted-in accounts, family flags) with boundary sizes around the 2048-byte reference budget and the "
-                       "schema limits, plus directed scenarios (fill schema then one more / type change at the limit, box life cycle, shared group budget, "
-                       "schema shrink); an evaluation = one group executed by the real evaluator; distinct = distinct group lines containing ≥ 1 effect")
+def corpus_ops():
+    d = os.path.join(os.path.dirname(os.path.dirname(os.path.abspath(__file__))), "corpus", "C23")
+    ops = []
+    if os.path.isdir(d):
+        for f in sorted(os.listdir(d)):
+            if f.endswith(".ops"):
+                ops += [l for l in open(os.path.join(d, f)).read().splitlines() if l.strip()]
+    return ops
+
+
+def one_pass(ctx, env, label):
+    """harness + driver + comparison + monitor on one op stream"""
     rc, out = ctx.go_test(PKG, TEST, env=env, timeout=5400)
     opsf, implf = os.path.join(ctx.work, NAME + ".ops"), os.path.join(ctx.work, NAME + ".impl")
     if rc != 0 or not os.path.exists(opsf):
-        ctx.tie_failures.append("harness %s %s failed to run (rc=%d): %s" % (PKG, TEST, rc, out[-600:]))
+        ctx.tie_failures.append("harness %s %s failed to run (%s, rc=%d): %s" % (PKG, TEST, label, rc, out[-600:]))
         return
     ops, impl = ctx.read_lines(opsf), ctx.read_lines(implf)
     mf = os.path.join(ctx.work, NAME + ".model.out")
     drc = ctx.driver("c23", [], opsf, mf)
     model = ctx.read_lines(mf) if drc == 0 else []
     if drc != 0:
-        ctx.tie_failures.append("driver c23 failed rc=%d" % drc)
+        ctx.tie_failures.append("driver c23 failed rc=%d (%s)" % (drc, label))
 
     # coverage
     dist = ctx.cov["distribution"]
@@ -244,8 +237,9 @@ def run(ctx, replay_ops=None):
     ctx.cov["distinct_nontrivial"] += len(groups)
     rnd = random.Random(ctx.seed)
     gl = sorted(groups)
-    for o in rnd.sample(gl, min(8, len(gl))):
-        ctx.cov["samples"].append(o[:400])
+    if label != "corpus":
+        for o in rnd.sample(gl, min(8, len(gl))):
+            ctx.cov["samples"].append(o[:400])
 
     cases = split_cases(ops, impl)
 
@@ -273,7 +267,7 @@ def run(ctx, replay_ops=None):
                       {"kind": "correspondence", "driver": "model", "ops": prefix(c, i - c.start), "index": i, "impl_out": a[:3000], "model_out": b[:3000],
                        "harness": HZ}, found_input=bool(hit))
     if bad:
-        ctx.notes.append("%d mismatching lines vs model in total" % len(bad))
+        ctx.notes.append("%d mismatching lines vs model in total (%s)" % (len(bad), label))
 
     # 2. the property monitor on the implementation's outputs alone
     hits = 0
@@ -284,8 +278,39 @@ def run(ctx, replay_ops=None):
             if hits <= 4:
                 idx, msg = hit
                 ctx.violation("monitor: " + msg, {"kind": "monitor", "ops": prefix(c, idx), "impl_out": c.lines[idx][1][:3000], "harness": HZ}, found_input=True)
-    dist["monitor:cases_checked"] = len(cases)
-    dist["monitor:hits"] = hits
+    dist["monitor:cases_checked"] = dist.get("monitor:cases_checked", 0) + len(cases)
+    dist["monitor:hits"] = dist.get("monitor:hits", 0) + hits
+
+
+def run(ctx, replay_ops=None):
+    ctx.overlay()
+    ctx.assumptions += ASSUMPTIONS
+    proved = ctx.prove(["AlgoVerif.Props.C23"])
+    ok, out = ctx.lean_build(["c23"])
+    if not ok:
+        raise RuntimeError("driver c23 does not build: " + out[-800:])
+    ctx.cov["rule"] = ("a case = fresh applications on a real ledger, 1-3 blocks of 5-15 transaction groups (creations with schemas 0..3, calls with "
+                       "NoOp/OptIn/CloseOut/Clear/Delete, schema-changing updates) whose effect scripts (0-7 effects) are drawn towards VALID effects from a "
+                       "picture of the case (existing boxes, opted-in accounts, family flags) with boundary sizes around the 2048-byte reference budget and the "
+                       "schema limits, plus directed scenarios (fill schema then one more / type change at the limit, box life cycle, shared group budget, "
+                       "schema shrink) and the hand-written corpus/C23/*.ops; an evaluation = one group executed by the real evaluator; distinct = distinct "
+                       "group lines containing ≥ 1 effect")
+
+    def replay_env(ops):
+        rp = os.path.join(ctx.work, NAME + ".replay")
+        open(rp, "w").write("\n".join(ops) + "\n")
+        return {"VERIF_REPLAY": rp}
+
+    if replay_ops is not None:
+        one_pass(ctx, replay_env(replay_ops), "replay")
+        return
+    cops = corpus_ops()
+    if cops:
+        one_pass(ctx, replay_env(cops), "corpus")
+    env = {}
+    if not proved:
+        env["VERIF_BUDGET_SCALE"] = "500" if ctx.tier == "quick" else "200"
+    one_pass(ctx, env, "generated")
 
 
 def replay(ctx, path):
